@@ -192,8 +192,17 @@ def scalar(args):
     return body
 
 
+def retry_with_constraints(args):
+    """Stored costs AND the feasibility marker belong to the finally stored vector also when the
+    design was re-sampled after a transient failure (harness shared with C06)."""
+    from . import c06
+    return c06.single({'dim': 1, 'ncon': args.get('ncon', 1)})
+
+
 def configs(tier):
     out = []
+    out.append({'name': 'retry-with-constraints', 'task': 'retry_with_constraints', 'args': {'ncon': 1}, 'weight': 20, 'split': 32,
+                'engine': {'validate': 40}})
     B = 2 if tier == 'quick' else 3
     for ci, crit in enumerate(CRITS):
         for ncon in (0, 1, 2):
